@@ -282,6 +282,10 @@ pub fn generate(seed: u64, knobs: &Knobs) -> C10Scenario {
                 .retain(|e| e.path != dropped && !e.path.starts_with(&format!("{}/", dropped)));
         }
         invocation.opts.generator_override = None;
+        if Rng::stream(seed, "in-place-output").chance(1, 3) {
+            // the other way to say "in place": the input as output location
+            invocation.opts.output = Some(project.input.clone());
+        }
     }
     if knobs.layer != Layer::L1 {
         invocation.opts.generator_override = None;
